@@ -7,7 +7,7 @@
    cursor / evaluation_failed / resuming = [eval_graph] (rr = true: the repaired rule of /repo commit
    "graph evaluate must not resume mid-cycle after a failed cycle"; rr = false: the rule before it).
    All statements are universal over trees, behaviours and worlds. *)
-Require Import Base Sched Nested NestedWitness NestedFacts.
+Require Import Base Sched Nested NestedWitness NestedFacts NestedInv NestedOnce NestedMsg.
 
 (* ---------------------------------------------------------------- captured_error_one_tick_same_cycle *)
 (* node-level capture: an exception e raised by the user code of a capturing node becomes exactly one
@@ -64,6 +64,30 @@ Theorem try_except_no_error_no_tick :
   forall T g i now w, w_err w = 0 -> caught T g i now w = w.
 Proof. exact caught_none. Qed.
 Print Assumptions try_except_no_error_no_tick.
+
+(* CARRYING THE EXCEPTION'S MESSAGE, at any depth.  The error slot carries the message id (100+a for
+   "hgv boom a", 2 for a non-std exception = "unknown error", 3 for the engine's schedule-in-the-past).
+   Whatever code leaves the evaluation of a graph - with any number of plain nested levels below, none of
+   them a try_except or a re-entering owner - is 9 / 3 (the engine's own tail codes) or the code raised by
+   the evaluation of ONE non-nested node from an error-free world: no nesting level rewrites it. *)
+Theorem message_not_rewritten_by_nesting :
+  forall T beh, wf_tree T -> forall c rr, no_try_from c T -> forall f g t w,
+    (c <= g)%nat -> ok w = true -> w_err (eval_graph f T beh rr g t w) <> 0 ->
+    origin T beh (w_err (eval_graph f T beh rr g t w)).
+Proof. intros T beh HT c rr HN f. exact (eval_graph_origin T beh HT c rr HN f). Qed.
+Print Assumptions message_not_rewritten_by_nesting.
+
+(* ... hence the message ticked by try_except is exactly the message thrown, whatever depth lies between *)
+Theorem try_except_ticks_the_thrown_message :
+  forall T beh, wf_tree T -> forall rr f g i now w e,
+    no_try_from (c_child (ncfg_at T g i)) T ->
+    ok w = true ->
+    let w1 := eval_graph f T beh rr (c_child (ncfg_at T g i)) now w in
+    w_err w1 = e -> e <> 0 ->
+    (g < length (w_gs w1))%nat -> (i < length (g_nodes (gat g w1)))%nat ->
+    errp (node_at g i (caught T g i now w1)) = (Some e, now) /\ w_err (caught T g i now w1) = 0 /\ origin T beh e.
+Proof. intros T beh HT. exact (try_ticks_thrown_code T beh HT). Qed.
+Print Assumptions try_except_ticks_the_thrown_message.
 
 (* ---------------------------------------------------------------- run_continues *)
 (* the capture leaves no error behind (above: w_err = 0), the notification of the error output's readers
@@ -166,3 +190,12 @@ Proof.
   repeat split; try (vm_compute; reflexivity); try (vm_compute; lia).
   intros g pg pn. destruct g as [|[|g]]; vm_compute; intros H; discriminate.
 Qed.
+
+(* two levels: the thrower's message (107 = "hgv boom 7") is what the try_except two levels above ticks, at the
+   throw's time (t = 2), and the run continues to the end *)
+Example message_through_two_levels :
+  let T := decode try_nested_boom_case in
+  let w := run_sim T (script_beh try_nested_boom_case) true 1 9 9 in
+  w_err w = 0 /\ errp (node_at 0 1 w) = (Some 107, 2) /\ c_kind (ncfg_at T 0 1) = 2 /\ c_kind (ncfg_at T 1 0) = 1.
+Proof. vm_compute. repeat split; reflexivity. Qed.
+
